@@ -1433,14 +1433,16 @@ fn run_case(script: &str, specs: &[String], args: &[Args], sig: &str, rt: &Runti
     }
 }
 
-pub fn worker(seed: u64, from: u64, n: u64) {
+pub fn worker(seed: u64, base: u64, from: u64, n: u64) {
     install_panic_hook();
     let rt = runtime();
     let mut drv = Driver::spawn().expect("driver");
     let mut rep = Report::default();
+    crate::start_watchdog(6);
     for idx in from..from + n {
         println!("START {idx}");
-        let c = gen_case(seed, idx);
+        crate::case_begins();
+        let c = gen_case(seed, base + idx);
         let specs: Vec<String> = c.spec.lines().map(|s| s.to_string()).collect();
         run_case(&c.script, &specs, &c.args, &c.sig, &rt, &mut drv, &mut rep);
     }
@@ -1486,6 +1488,7 @@ pub fn replay(v: &Value, rep: &mut Report) {
 
 pub fn replay_in_worker(payload: &str) {
     install_panic_hook();
+    crate::start_watchdog(30);
     let v: Value = serde_json::from_str(payload).expect("json");
     let rt = runtime();
     let mut drv = Driver::spawn().expect("driver");
